@@ -112,6 +112,10 @@ type Env struct {
 	// PayQueries records the addresses the payability oracle was asked about (reset per leg)
 	PayQueries []string
 
+	// PrepareInput, if set, may rewrite the input object right before the call (C13 carves the
+	// argument slices out of one backing array); the returned function runs right after the call.
+	PrepareInput func(in *vmcommon.ContractCallInput) func()
+
 	curByShard []*Exec
 }
 
